@@ -60,7 +60,7 @@ func Parse(str string) (DID, error) {
 		return Undef, err
 	}
 	switch multicodec.Code(code) {
-	case Ed25519, P256, Secp256k1, RSA:
+	case Ed25519, P256, P384, P521, Secp256k1, RSA:
 		return DID{bytes: string(bytes), code: multicodec.Code(code)}, nil
 	default:
 		return Undef, fmt.Errorf("unsupported did:key multicodec: 0x%x", code)
